@@ -55,6 +55,35 @@ pub fn conformance_scenarios(tier: Tier) -> Vec<DScn> {
     s2.user = vec![(0, Side::R, UserOp::Suspend), (0, Side::R, UserOp::Resume), (0, Side::S, UserOp::Cancel), (0, Side::S, UserOp::PromptNak)];
     s2.dups = false;
     v.push(s2);
+    // other codec/checksum configurations drive the same loops through different PDU shapes
+    let mut c = cfg_base("conf");
+    c.crc = true;
+    c.seg = 8;
+    v.push(single("conf ack crc seg=8 size=20", c, true, 20, dev.min(2)));
+    let mut n = cfg_base("conf");
+    n.ack = false;
+    n.closure = true;
+    n.null_checksum = true;
+    v.push(single("conf unack+closure null-checksum size=17", n, false, 17, dev.min(2)));
+    // the empty and the one-octet file: with the metadata (and the only segment) lost, the EOF is
+    // the first PDU of the transaction to reach the destination daemon
+    v.push(single("conf ack size=0", cfg_base("conf"), true, 0, 2));
+    v.push(single("conf ack size=1", cfg_base("conf"), true, 1, 2));
+    if tier == Tier::Thorough {
+        // positive-ack / nak / inactivity limits handled by Abandon and by Ignore instead of Cancel
+        for (a, nm) in [(3u8, "abandon"), (2u8, "ignore")] {
+            let mut h = cfg_base("conf");
+            h.handlers = vec![(1, a), (7, a), (8, a)];
+            h.max_count = 1;
+            let mut s = single(&format!("conf ack limits->{} size=17", nm), h, true, 17, 2);
+            s.dups = false;
+            s.overtake = false;
+            v.push(s);
+        }
+        let mut e = cfg_base("conf");
+        e.nak_immediate = true;
+        v.push(single("conf ack nak=imm0 size=33", e, true, 33, 2));
+    }
     v
 }
 
@@ -65,10 +94,11 @@ pub struct Conf {
     pub steps: u64,
     pub divergences: Vec<String>,
     pub incomplete: u64,
+    pub per: Vec<serde_json::Value>,
 }
 
 pub fn run_conformance(scns: Vec<DScn>) -> Conf {
-    let mut c = Conf { pruned: 0, schedules: 0, agreed: 0, steps: 0, divergences: vec![], incomplete: 0 };
+    let mut c = Conf { pruned: 0, schedules: 0, agreed: 0, steps: 0, divergences: vec![], incomplete: 0, per: vec![] };
     for s in scns {
         let r = explore_dbx(&s);
         c.schedules += r.schedules;
@@ -76,6 +106,7 @@ pub fn run_conformance(scns: Vec<DScn>) -> Conf {
         c.steps += r.steps_validated;
         c.incomplete += r.incomplete;
         c.pruned += r.pruned_ambiguous;
+        c.per.push(json!({"scenario": s.name, "schedules": r.schedules, "agreed_with_twin": r.agreed, "deviation_bound": r.bound, "incomplete": r.incomplete, "pruned_ambiguous_timers": r.pruned_ambiguous}));
         c.divergences.extend(r.divergences);
     }
     c
@@ -158,7 +189,7 @@ pub fn c11(args: &Args) -> Report {
         "traces_validated_against_impl": agreed + conf.agreed,
         "samples": samples,
         "schedules": schedules + conf.schedules,
-        "single_transaction_conformance": {"schedules": conf.schedules, "agreed": conf.agreed, "real_loop_steps_replayed_on_twin": conf.steps},
+        "single_transaction_conformance": {"schedules": conf.schedules, "agreed": conf.agreed, "real_loop_steps_replayed_on_twin": conf.steps, "per_scenario": conf.per},
         "per_scenario": per,
         "schedules_cut_by_horizon": incomplete,
         "schedules_pruned_ambiguous_timers": pruned,
